@@ -484,6 +484,11 @@ func (g *gen) behC07() M {
 			st := M{"id": id, "cols": []any{M{"name": fmt.Sprintf("v%d", id), "oid": 25}}, "oids": []any{},
 				"prog": []any{M{"op": "row", "cells": []any{M{"c": "v", "val": fmt.Sprintf("s:r%d", id)}}}, M{"op": "complete", "tag": "OK"}, M{"op": "ret", "r": "nil"}}}
 			m = M{"t": "P", "name": g.name(), "q": M{"id": id, "parse": "ok", "stmts": []any{st}}, "noids": 0}
+			if g.chance(0.08) {
+				// an empty or blank query text under a name in use: the parser is asked, refuses, and the name
+				// keeps what it stood for
+				m = M{"t": "P", "name": g.name(), "q": M{"id": id, "parse": "blank", "stmts": []any{}}, "noids": 0}
+			}
 		case 2, 3:
 			np := g.rng.Intn(3)
 			params := []any{}
